@@ -170,7 +170,7 @@ Lemma url_module_distinct m m' :
   | _, _ => False
   end.
 Proof.
-  destruct m as [a|d|p| | | |], m' as [a'|d'|p'| | | |]; cbn [custom]; intros C C' H; try discriminate; try exact I;
+  destruct m as [a|d|p| | | | |], m' as [a'|d'|p'| | | | |]; cbn [custom]; intros C C' H; try discriminate; try exact I;
     exfalso.
   - destruct a, d'; vm_compute in H; discriminate H.
   - destruct a, p'; vm_compute in H; discriminate H.
@@ -187,7 +187,7 @@ Theorem msg_any_inj : forall m m',
 Proof.
   intros m m' C C' H. unfold msg_any in H. apply pair_equal_spec in H as [Hu Hv].
   pose proof (url_module_distinct m m' C C' Hu) as Hm.
-  destruct m as [a|d|p| | | |], m' as [a'|d'|p'| | | |]; try contradiction; try discriminate; cbn [msg_fields] in Hv; f_equal.
+  destruct m as [a|d|p| | | | |], m' as [a'|d'|p'| | | | |]; try contradiction; try discriminate; cbn [msg_fields] in Hv; f_equal.
   - exact (pf_aol_inj _ _ Hu Hv).
   - exact (pf_did_inj _ _ Hu Hv).
   - exact (pf_pnft_inj _ _ Hu Hv).
@@ -595,7 +595,7 @@ Theorem amino_msg_inj : forall m m',
 Proof.
   intros m m' C C' Hu V V' N N' H. apply amino_json_view in H.
   pose proof (url_module_distinct m m' C C' Hu) as Hm.
-  destruct m as [a|d|p| | | |], m' as [a'|d'|p'| | | |]; try contradiction; try discriminate; f_equal.
+  destruct m as [a|d|p| | | | |], m' as [a'|d'|p'| | | | |]; try contradiction; try discriminate; f_equal.
   - apply amino_aol_inj; assumption.
   - apply amino_did_inj; assumption.
   - apply amino_pnft_inj; assumption.
@@ -775,7 +775,7 @@ Proof.
 Qed.
 
 Lemma amino_fields_sorted m : ssortedb (map fst (amino_fields m)) = true.
-Proof. destruct m as [[]|[]|[]| | | |]; vm_compute; reflexivity. Qed.
+Proof. destruct m as [[]|[]|[]| | | | |]; vm_compute; reflexivity. Qed.
 
 Lemma amino_view_keys m : amino_view m = JObj (filter nn (map nf (amino_fields m))).
 Proof.
@@ -794,7 +794,7 @@ Proof.
   intros K key Hin. unfold present_keys in Hin. apply in_map_iff in Hin as (kv & <- & Hin).
   apply filter_In in Hin as [Hin _]. apply (in_map fst) in Hin.
   assert (E : map fst (amino_fields m) = possible_keys k).
-  { destruct m as [[]|[]|[]| | | |]; try discriminate K; injection K as <-; reflexivity. }
+  { destruct m as [[]|[]|[]| | | | |]; try discriminate K; injection K as <-; reflexivity. }
   rewrite <- E. exact Hin.
 Qed.
 
@@ -861,7 +861,7 @@ Proof.
   destruct m as [[t d o|t mo d w o|t w o|t ky v w o f]
                 |[did doc vmid sg from|did doc vmid sg from|did vmid sg from]
                 |[a1 a2 a3 a4 a5 a6 a7 a8|a1 a2 a3 a4 a5 a6 a7 a8|a1 a2|a1 a2 a3|a1 a2 a3 a4 a5 a6 a7 a8|a1 a2 a3 a4|a1 a2 a3]
-                | | | |];
+                | | | | |];
     try discriminate K; injection K as <-; cbn [vb_base vb_aol vb_did vb_pnft] in H; cbn [required_keys In] in Hin.
   - unfold Valid.Aol.vb_create_topic in H. binds H. apply topic_nonempty in E. apply (addr_nonempty _ _ Hn) in H.
     destruct Hin as [<-|[<-|[]]]; [apply (in_present _ o) | apply (in_present _ t)]; try assumption; key_in.
@@ -939,12 +939,12 @@ Qed.
 
 Lemma kind_type_url m m' k : kind_of m = Some k -> kind_of m' = Some k -> type_url m = type_url m'.
 Proof.
-  destruct m as [[]|[]|[]| | | |]; intros K; try discriminate K; injection K as <-;
-    destruct m' as [[]|[]|[]| | | |]; intros K'; try discriminate K'; reflexivity.
+  destruct m as [[]|[]|[]| | | | |]; intros K; try discriminate K; injection K as <-;
+    destruct m' as [[]|[]|[]| | | | |]; intros K'; try discriminate K'; reflexivity.
 Qed.
 
 Lemma kind_custom m k : kind_of m = Some k -> custom m = true.
-Proof. destruct m as [[]|[]|[]| | | |]; intros K; try discriminate K; reflexivity. Qed.
+Proof. destruct m as [[]|[]|[]| | | | |]; intros K; try discriminate K; reflexivity. Qed.
 
 (** B6b: the classification.  Two validated custom messages with valid texts and canonical documents have the same
     amino JSON only if they are equal, or their kinds are one of the four unseparated pairs *)
